@@ -192,21 +192,25 @@ class CalendarRule(PluginResultIterator):
         if not until:
             return None
 
-        if isinstance(until, str):
-            if is_datetime(until):
-                until = parse_datetimespec(until)
-            else:
-                until = datetime.combine(parse_date(until), self.start_date.time())
-
+        if isinstance(until, str) and is_datetime(until):
+            until = parse_datetimespec(until)
+        elif isinstance(until, str):
+            until = self._at_start_time(parse_date(until))
+        elif isinstance(until, datetime):
+            until = parse_datetimespec(until)
         elif isinstance(until, date):
-            until = datetime.combine(until, self.start_date.time(), tzinfo=timezone.utc)
-
+            until = self._at_start_time(until)
         else:
             raise exc.DataGenTypeError(
                 f"`until` parameter ({until}) is of unexpected type {until}"
             )
 
-        return until.replace(tzinfo=timezone.utc)
+        # dateutil wants an aware `until` for an aware start; the instant is what matters
+        return until.astimezone(timezone.utc)
+
+    def _at_start_time(self, d: date) -> datetime:
+        """The given date at the start's time of day, in the start's zone"""
+        return datetime.combine(d, self.start_date.time(), tzinfo=self.start_date.tzinfo)
 
     def _set_output_datetype_date_or_datetime(self, precision: type) -> None:
         """Depending on the precision requested, generate the right kinds of records"""
@@ -245,18 +249,11 @@ class CalendarRule(PluginResultIterator):
             add_rule(T.cast(T.Any, case.ruleset))
 
         elif isinstance(case, datetime):
-            add_date(case)
+            add_date(parse_datetimespec(case))  # naive means UTC, as for start_date
         elif isinstance(case, date):
-            d: date = case
-            self._process_special_cases(
-                datetime.combine(d, self.start_date.time(), tzinfo=timezone.utc), action
-            )
+            self._process_special_cases(self._at_start_time(case), action)
         elif isinstance(case, str):
-            d2: date = parse_date(case)
-            dt: datetime = datetime.combine(
-                d2, self.start_date.time(), tzinfo=timezone.utc
-            )
-            self._process_special_cases(dt, action)
+            self._process_special_cases(self._at_start_time(parse_date(case)), action)
         else:  # pragma: no cover
             raise TypeError(f"Cannot {action} {case}, ({type(case)})")
 
